@@ -243,7 +243,8 @@ def analyse(h: History):
             if k == 'onend-begin':
                 i = int(t[1][1:]); rec[i] = {'tid': tid, 'begin': tm, 'chk': None, 'chk_t': None, 'commit_t': None, 'ret_t': None}; cur[tid] = i
             elif k == 'ld' and t[1] == 'is_shutdown':
-                rec[cur[tid]]['chk'] = int(t[2]); rec[cur[tid]]['chk_t'] = tm
+                if rec[cur[tid]]['chk'] is None:      # the first test of the flag in this call decides; a later re-read does not
+                    rec[cur[tid]]['chk'] = int(t[2]); rec[cur[tid]]['chk_t'] = tm
             elif k == 'casw' and t[1] == 'head' and t[4] == 'ok':
                 rec[cur[tid]]['commit_t'] = tm
             elif k == 'onend-ret':
